@@ -119,6 +119,15 @@ func run(c *vk.Ctx, can *rig.Canary, sc scen, idx int) {
 		for time.Now().Before(end) {
 			sendAt(N / 2)
 		}
+	case "pair-just-under-a-tenth-apart":
+		// two sends a little less than N/10 (the timer's polling step) apart, then idleness: the Heartbeat is due N after the SECOND
+		for time.Now().Before(end) {
+			_ = l.S.Send(fixgen.CreateMarketDataRequestReject("pair-1"))
+			time.Sleep(N * 9 / 100)
+			_ = l.S.Send(fixgen.CreateMarketDataRequestReject("pair-2"))
+			c.Count("app_sends", 2)
+			time.Sleep(N + N*6/10)
+		}
 	case "resend-replay-mid-period":
 		// the peer asks for a retransmission N/2 after the previous outbound message: the replay is an outbound message too
 		for time.Now().Before(end) {
@@ -223,7 +232,7 @@ func run(c *vk.Ctx, can *rig.Canary, sc scen, idx int) {
 
 func main() {
 	c := vk.Init("C08")
-	c.Rule("full-stack sessions, both roles, negotiated N in {1,2,3} (quick) + {5,20} (thorough); the peer keeps the session alive with a Heartbeat every 0.8 N; application send patterns relative to the previous outbound message: none (idle for many periods), one send N-0.15 s / N / N+0.15 s / N/2 after it, bursts of 20 followed by 2.3 N of idleness, a retransmission requested by the peer N/2 after it, an application send through the handler (own header) N/2 after it. Oracle on write timestamps at the peer end: every gap between consecutive outbound messages (and up to the end of the observation) <= N + N/10 + slack, slack = 100 ms + 3 x measured scheduler oversleep; every Heartbeat without TestReqID follows the previous outbound message by >= N - 20 ms. distinct = (role, N, pattern); non-trivial = at least one unsolicited Heartbeat observed")
+	c.Rule("full-stack sessions, both roles, negotiated N in {1,2,3} (quick) + {5,20} (thorough); the peer keeps the session alive with a Heartbeat every 0.8 N; application send patterns relative to the previous outbound message: none (idle for many periods), one send N-0.15 s / N / N+0.15 s / N/2 after it, bursts of 20 followed by 2.3 N of idleness, two sends 0.09 N apart followed by 1.6 N of idleness, a retransmission requested by the peer N/2 after it, an application send through the handler (own header) N/2 after it. Oracle on write timestamps at the peer end: every gap between consecutive outbound messages (and up to the end of the observation) <= N + N/10 + slack, slack = 100 ms + 3 x measured scheduler oversleep; every Heartbeat without TestReqID follows the previous outbound message by >= N - 20 ms. distinct = (role, N, pattern); non-trivial = at least one unsolicited Heartbeat observed")
 	c.Assume("single-logon histories; a run whose canary measured more than 250 ms oversleep is inconclusive")
 	can := rig.StartCanary()
 	defer can.Stop()
@@ -236,7 +245,7 @@ func main() {
 	var scs []scen
 	for _, role := range []rig.Role{rig.Acceptor, rig.Initiator} {
 		for _, n := range ns {
-			for _, p := range []string{"idle", "send-just-before", "send-at-deadline", "send-just-after", "bursts-then-idle", "half-period-sends", "resend-replay-mid-period", "handler-send-mid-period"} {
+			for _, p := range []string{"idle", "send-just-before", "send-at-deadline", "send-just-after", "bursts-then-idle", "half-period-sends", "pair-just-under-a-tenth-apart", "resend-replay-mid-period", "handler-send-mid-period"} {
 				scs = append(scs, scen{role, n, p, periods[n]})
 			}
 		}
